@@ -436,7 +436,7 @@ class BinnerKeepingContents(BinnerKeepingSums):
             new_lists = [sorted(lists1[perm[i]] + lists2[i]) for i in range(numbins)]  # sorting to avoid duplicates
             new_bins = (new_sums, new_lists)
             self.sort_by_ascending_sum(new_bins)
-            new_lists_tuple = tuple(map(tuple,new_bins[1]))
+            new_lists_tuple = tuple(sorted(map(tuple,new_bins[1])))  # bins with equal sums may come in any order
             if new_lists_tuple not in yielded:
                 yielded.add(new_lists_tuple)
                 yield new_bins
